@@ -7,6 +7,397 @@ verus! {
 broadcast use vstd::std_specs::hash::group_hash_axioms;
 //@include prelude/cred_env.rs
 
+
+// ---------------------------------------------------------------- more of stun-rs, abstract
+//@item! stun_rs :: mod message > enum MessageClass
+impl Clone for MessageClass { fn clone(&self) -> (r: Self) ensures r == *self { *self } }
+impl Copy for MessageClass {}
+impl vstd::std_specs::cmp::PartialEqSpecImpl for MessageClass {
+    open spec fn obeys_eq_spec() -> bool { true }
+    open spec fn eq_spec(&self, other: &MessageClass) -> bool { *self == *other }
+}
+impl PartialEq for MessageClass {
+    #[verifier::external_body]
+    fn eq(&self, other: &MessageClass) -> (r: bool) { unimplemented!() }
+}
+pub mod stun_rs { pub use super::MessageClass; }
+#[verifier::external_body]
+pub struct HMACKey { _p: () }
+impl Clone for HMACKey { #[verifier::external_body] fn clone(&self) -> (r: Self) ensures r == *self { unimplemented!() } }
+#[verifier::external_body]
+pub struct StunMessage { _p: () }
+impl StunMessage {
+    pub uninterp spec fn sid(&self) -> TransactionId;
+    pub uninterp spec fn sclass(&self) -> MessageClass;
+    pub uninterp spec fn attrs(&self) -> Seq<StunAttribute>;
+    #[verifier::external_body]
+    pub fn transaction_id(&self) -> (r: &TransactionId) ensures *r == self.sid() { unimplemented!() }
+    #[verifier::external_body]
+    pub fn class(&self) -> (r: MessageClass) ensures r == self.sclass() { unimplemented!() }
+    #[verifier::external_body]
+    pub fn attributes(&self) -> (r: &[StunAttribute]) ensures r@ == self.attrs() { unimplemented!() }
+}
+// RFC 8489 14.5/14.6 (unit codec/attrs): the text a MAC is computed over, and whether an attribute's MAC matches it
+pub uninterp spec fn mac_input(raw: Seq<u8>, ty: u16) -> Option<Seq<u8>>;
+pub uninterp spec fn mi_validates(a: MessageIntegrity, input: Seq<u8>, key: HMACKey) -> bool;
+pub uninterp spec fn sha_validates(a: MessageIntegritySha256, input: Seq<u8>, key: HMACKey) -> bool;
+#[verifier::external_body]
+pub fn get_input_text<A: StunAttributeType>(buffer: &[u8]) -> (r: Option<Vec<u8>>)
+    ensures match mac_input(buffer@, A::spec_type()) { Some(t) => r is Some && r->Some_0@ == t, None => r is None },
+{ unimplemented!() }
+impl MessageIntegrity {
+    pub uninterp spec fn key(&self) -> HMACKey;
+    #[verifier::external_body]
+    pub fn new(key: HMACKey) -> (r: Self) ensures r.key() == key { unimplemented!() }
+    #[verifier::external_body]
+    pub fn validate(&self, input: &[u8], key: &HMACKey) -> (r: bool) ensures r == mi_validates(*self, input@, *key) { unimplemented!() }
+}
+impl MessageIntegritySha256 {
+    pub uninterp spec fn key(&self) -> HMACKey;
+    #[verifier::external_body]
+    pub fn new(key: HMACKey) -> (r: Self) ensures r.key() == key { unimplemented!() }
+    #[verifier::external_body]
+    pub fn validate(&self, input: &[u8], key: &HMACKey) -> (r: bool) ensures r == sha_validates(*self, input@, *key) { unimplemented!() }
+}
+// "attribute `a` of the received bytes `raw` carries a MAC that verifies under `key`"
+pub open spec fn mac_ok(a: StunAttribute, key: HMACKey, raw: Seq<u8>) -> bool {
+    match a {
+        StunAttribute::MessageIntegrity(m) => mac_input(raw, TY_MESSAGEINTEGRITY) is Some
+            && mi_validates(m, mac_input(raw, TY_MESSAGEINTEGRITY)->Some_0, key),
+        StunAttribute::MessageIntegritySha256(m) => mac_input(raw, TY_MESSAGEINTEGRITYSHA256) is Some
+            && sha_validates(m, mac_input(raw, TY_MESSAGEINTEGRITYSHA256)->Some_0, key),
+        _ => false,
+    }
+}
+
+// ---------------------------------------------------------------- integrity.rs
+//@item! stun_agent :: mod integrity > enum IntegrityError
+//@item! stun_agent :: enum Integrity
+impl Clone for Integrity { fn clone(&self) -> (r: Self) ensures r == *self { *self } }
+impl Copy for Integrity {}
+impl Clone for IntegrityError { fn clone(&self) -> (r: Self) ensures r == *self { *self } }
+impl Copy for IntegrityError {}
+//@item! stun_agent :: mod integrity > struct TransportIntegrity
+pub broadcast proof fn axiom_txid_key_model()
+    ensures #[trigger] obeys_key_model::<TransactionId>(),
+{ admit(); }
+impl core::hash::Hash for TransactionId {
+    #[verifier::external_body]
+    fn hash<H: core::hash::Hasher>(&self, state: &mut H) { unimplemented!() }
+}
+//@item stun_agent :: mod integrity > fn validate_message_integrity
+//@tags C07 C08 C04
+//@spec
+    ensures r == mac_ok(*integrity, *key, raw_buffer@),
+//@end
+impl TransportIntegrity {
+    // the documented marker of C17: transactions one of whose responses failed authentication (unreliable transport)
+    pub open spec fn violated(&self) -> Set<TransactionId> { self.transactions@ }
+    pub open spec fn discard_outcome(&self, message: &StunMessage) -> (IntegrityError, Set<TransactionId>) {
+        if message.sclass() is Indication { (IntegrityError::Discarded, self.violated()) }
+        else if self.is_reliable { (IntegrityError::ProtectionViolated, self.violated()) }
+        else { (IntegrityError::Discarded, self.violated().insert(message.sid())) }
+    }
+//@item stun_agent :: mod integrity > impl TransportIntegrity > fn new
+//@spec
+    ensures r.is_reliable == is_reliable, r.violated() == Set::<TransactionId>::empty(),
+//@end
+//@item stun_agent :: mod integrity > impl TransportIntegrity > fn discard_message
+//@tags C07 C08 C17
+//@head
+    broadcast use axiom_txid_key_model;
+//@spec
+    ensures final(self).is_reliable == old(self).is_reliable,
+        r == old(self).discard_outcome(message).0, final(self).violated() == old(self).discard_outcome(message).1,
+//@end
+//@item stun_agent :: mod integrity > impl TransportIntegrity > fn compute_message_integrity
+//@tags C07 C08 C17
+//@head
+    broadcast use axiom_txid_key_model;
+//@spec
+    ensures final(self).is_reliable == old(self).is_reliable,
+        // accepted exactly when an integrity attribute was selected and its MAC verifies under the key
+        r is Ok <==> integrity is Some && mac_ok(*integrity->Some_0, *key, raw_buffer@),
+        r is Ok ==> final(self).violated() == (if message.sclass() is Indication { old(self).violated() }
+            else { old(self).violated().remove(message.sid()) }),
+        // otherwise: protection-violated on reliable transport; ignored and marked on unreliable; indications ignored
+        r is Err ==> r->Err_0 == old(self).discard_outcome(message).0
+            && final(self).violated() == old(self).discard_outcome(message).1,
+//@end
+//@item stun_agent :: mod integrity > impl TransportIntegrity > fn signal_protection_violated_on_timeout
+//@tags C07 C17
+//@head
+    broadcast use axiom_txid_key_model;
+//@spec
+    ensures final(self).is_reliable == old(self).is_reliable,
+        r == old(self).violated().contains(*transaction_id),
+        final(self).violated() == old(self).violated().remove(*transaction_id),
+//@end
+}
+
+// ---------------------------------------------------------------- attribute set and ordering rule (contracts from unit attrset)
+//@include inc/attrset_vocab.rs
+impl StunAttributes {
+//@import attrset :: stun_agent :: mod message > impl StunAttributes > fn add as vx_add
+//@import attrset :: stun_agent :: mod message > impl StunAttributes > fn remove
+    // `add<T: Into<StunAttribute>>`: the generic front of vx_add
+    pub fn add<T: VxIntoAttr>(&mut self, attribute: T)
+        requires old(self).wf(),
+        ensures final(self).wf(), added(*old(self), *final(self), attribute.vx_attr()),
+    {
+        self.vx_add(attribute.vx_into());
+    }
+}
+// the effect of StunAttributes::add, as a relation (restating the contract proved in unit attrset)
+pub open spec fn added(s0: StunAttributes, s1: StunAttributes, a: StunAttribute) -> bool {
+    &&& (a.ty() == TY_MESSAGE_INTEGRITY ==> s1.integrity == Some(a) && s1.attributes@ == s0.attributes@
+            && s1.integrity_sha256 == s0.integrity_sha256 && s1.fingerprint == s0.fingerprint)
+    &&& (a.ty() == TY_MESSAGE_INTEGRITY_SHA256 ==> s1.integrity_sha256 == Some(a) && s1.attributes@ == s0.attributes@
+            && s1.integrity == s0.integrity && s1.fingerprint == s0.fingerprint)
+    &&& (a.ty() == TY_FINGERPRINT ==> s1.fingerprint == Some(a) && s1.attributes@ == s0.attributes@
+            && s1.integrity == s0.integrity && s1.integrity_sha256 == s0.integrity_sha256)
+    &&& (!is_trailer_ty(a.ty()) ==> s1.integrity == s0.integrity && s1.integrity_sha256 == s0.integrity_sha256
+            && s1.fingerprint == s0.fingerprint
+            && match s0.index_of(a.ty()) {
+                Some(i) => s1.attributes@ == s0.attributes@.update(i, a),
+                None => s1.attributes@ == s0.attributes@.push(a),
+            })
+}
+pub spec const TY_MESSAGE_INTEGRITY: u16 = 0x0008;
+pub spec const TY_MESSAGE_INTEGRITY_SHA256: u16 = 0x001C;
+//@include inc/admission.rs
+//@include inc/protiter_vocab.rs
+impl<'a> ProtectedAttributeIteratorObject<'a> {
+//@import attrset :: stun_agent :: impl<'a> Iterator for ProtectedAttributeIteratorObject<'a> > fn next
+}
+pub struct VxSliceRef<'a>(pub &'a [StunAttribute]);
+impl<'a> VxSliceRef<'a> {
+//@import attrset :: stun_agent :: impl<'a> ProtectedAttributeIterator<'a> for &'a [StunAttribute] > fn protected_iter
+}
+
+// ---------------------------------------------------------------- st_cred_mech.rs (RFC 8489 9.1)
+// the admitted attribute of a given type among the first n wire attributes (the rule admits at most one MI and one SHA256)
+pub open spec fn sel(attrs: Seq<StunAttribute>, n: int, t: u16) -> Option<int>
+    decreases n
+{
+    if n <= 0 { None }
+    else if admitted(types_of(attrs), n - 1) && attrs[n - 1].ty() == t { Some(n - 1) }
+    else { sel(attrs, n - 1, t) }
+}
+proof fn lemma_sel_skip(attrs: Seq<StunAttribute>, a: int, b: int, t: u16)
+    requires 0 <= a <= b <= attrs.len(), forall|j: int| a <= j < b ==> !admitted(types_of(attrs), j),
+    ensures sel(attrs, b, t) == sel(attrs, a, t),
+    decreases b - a,
+{
+    if a < b { lemma_sel_skip(attrs, a, b - 1, t); }
+}
+proof fn lemma_sel_mono(attrs: Seq<StunAttribute>, a: int, b: int, t: u16)
+    requires 0 <= a <= b <= attrs.len(), sel(attrs, a, t) is Some,
+    ensures sel(attrs, b, t) is Some,
+    decreases b - a,
+{
+    if a < b { lemma_sel_mono(attrs, a, b - 1, t); }
+}
+proof fn lemma_sel_range(attrs: Seq<StunAttribute>, n: int, t: u16)
+    requires 0 <= n <= attrs.len(),
+    ensures sel(attrs, n, t) is Some ==> 0 <= sel(attrs, n, t)->Some_0 < n && attrs[sel(attrs, n, t)->Some_0].ty() == t
+        && admitted(types_of(attrs), sel(attrs, n, t)->Some_0),
+    decreases n,
+{
+    if n > 0 { lemma_sel_range(attrs, n - 1, t); }
+}
+pub assume_specification<T> [std::option::Option::<T>::or] (a: Option<T>, b: Option<T>) -> (r: Option<T>)
+    where T: std::marker::Destruct,
+    ensures r == (if a is Some { a } else { b });
+// An `Unknown` attribute is what the decoder builds when the registry has no handler for the type, so its type is
+// none of the registered ones (type invariant of decoder-produced values; trusted here)
+pub proof fn axiom_unknown_not_registered(u: Unknown)
+    ensures u.uty() != TY_MESSAGEINTEGRITY, u.uty() != TY_MESSAGEINTEGRITYSHA256, u.uty() != TY_FINGERPRINT,
+        u.uty() != TY_ERRORCODE, u.uty() != TY_REALM, u.uty() != TY_NONCE, u.uty() != TY_PASSWORDALGORITHMS,
+        u.uty() != TY_PASSWORDALGORITHM, u.uty() != TY_USERNAME, u.uty() != TY_USERHASH,
+{ admit(); }
+pub proof fn lemma_variant_ty(a: StunAttribute)
+    ensures a is MessageIntegrity <==> a.ty() == TY_MESSAGEINTEGRITY,
+        a is MessageIntegritySha256 <==> a.ty() == TY_MESSAGEINTEGRITYSHA256,
+        a is Fingerprint <==> a.ty() == TY_FINGERPRINT,
+        a is ErrorCode <==> a.ty() == TY_ERRORCODE,
+        a is Realm <==> a.ty() == TY_REALM,
+        a is Nonce <==> a.ty() == TY_NONCE,
+        a is PasswordAlgorithms <==> a.ty() == TY_PASSWORDALGORITHMS,
+{
+    if let StunAttribute::Unknown(u) = a { axiom_unknown_not_registered(u); }
+}
+pub open spec fn opt_ref_is(o: Option<&StunAttribute>, attrs: Seq<StunAttribute>, idx: Option<int>) -> bool {
+    match o { Some(a) => idx is Some && *a == attrs[idx->Some_0], None => idx is None }
+}
+pub open spec fn opt_some(o: Option<&StunAttribute>) -> bool { o is Some }
+//@item! stun_agent :: mod st_cred_mech > struct ShortTermCredentialClient
+pub open spec fn kind_integrity(a: StunAttribute) -> Integrity {
+    if a is MessageIntegrity { Integrity::MessageIntegrity } else { Integrity::MessageIntegritySha256 }
+}
+// which integrity attribute of a message the short-term client looks at, given what has been agreed so far
+pub open spec fn st_chosen(agreed: Option<Integrity>, attrs: Seq<StunAttribute>) -> Option<int> {
+    let mi = sel(attrs, attrs.len() as int, TY_MESSAGEINTEGRITY);
+    let sha = sel(attrs, attrs.len() as int, TY_MESSAGEINTEGRITYSHA256);
+    match agreed {
+        Some(Integrity::MessageIntegrity) => mi,
+        Some(Integrity::MessageIntegritySha256) => sha,
+        None => if mi is Some { mi } else { sha },
+    }
+}
+pub open spec fn st_both(msg: &StunMessage) -> bool {
+    !(msg.sclass() is Indication)
+    && sel(msg.attrs(), msg.attrs().len() as int, TY_MESSAGEINTEGRITY) is Some
+    && sel(msg.attrs(), msg.attrs().len() as int, TY_MESSAGEINTEGRITYSHA256) is Some
+}
+impl ShortTermCredentialClient {
+    pub open spec fn violated(&self) -> Set<TransactionId> { self.validator.violated() }
+//@item stun_agent :: mod st_cred_mech > impl ShortTermCredentialClient > fn new
+//@tags C07
+//@spec
+    ensures r.user_name == user_name, r.key == key, r.integrity == integrity, r.validator.is_reliable == is_reliable,
+        r.violated() == Set::<TransactionId>::empty(),
+//@end
+//@item stun_agent :: mod st_cred_mech > impl ShortTermCredentialClient > fn process_message
+//@tags C07 C17
+//@rules R4
+//@sub "msg.attributes().protected_iter()" => "VxSliceRef(msg.attributes()).protected_iter()"
+//@head
+    let ghost attrs = msg.attrs();
+    let ghost n = attrs.len() as int;
+//@loop 1
+    invariant
+        vx_it0.wf(), vx_it0.iter.s@ == attrs, n == attrs.len(), attrs == msg.attrs(),
+        opt_ref_is(integrity, attrs, sel(attrs, vx_it0.iter.pos as int, TY_MESSAGEINTEGRITY)),
+        opt_ref_is(integrity_sha256, attrs, sel(attrs, vx_it0.iter.pos as int, TY_MESSAGEINTEGRITYSHA256)),
+        !(!(msg.sclass() is Indication) && opt_some(integrity) && opt_some(integrity_sha256)),
+        *self == *old(self),
+    ensures
+        vx_it0.iter.pos == n,
+    decreases n - vx_it0.iter.pos,
+//@loopstart 1
+    let ghost p0 = vx_it0.iter.pos as int;
+//@at "Some(attr) => {"
+    proof {
+        let k = vx_it0.iter.pos - 1;
+        lemma_sel_skip(attrs, p0, k, TY_MESSAGEINTEGRITY);
+        lemma_sel_skip(attrs, p0, k, TY_MESSAGEINTEGRITYSHA256);
+        assert(types_of(attrs)[k] == attrs[k].ty());
+        lemma_variant_ty(attrs[k]);
+        assert(*attr == attrs[k]);
+        assert(admitted(types_of(attrs), k));
+    }
+//@stmt "return Err(IntegrityError::Discarded);"
+    proof {
+        let k1 = vx_it0.iter.pos as int;
+        assert(sel(attrs, k1, TY_MESSAGEINTEGRITY) == (if admitted(types_of(attrs), k1 - 1) && attrs[k1 - 1].ty() == TY_MESSAGEINTEGRITY { Some(k1 - 1) } else { sel(attrs, k1 - 1, TY_MESSAGEINTEGRITY) }));
+        assert(sel(attrs, k1, TY_MESSAGEINTEGRITYSHA256) == (if admitted(types_of(attrs), k1 - 1) && attrs[k1 - 1].ty() == TY_MESSAGEINTEGRITYSHA256 { Some(k1 - 1) } else { sel(attrs, k1 - 1, TY_MESSAGEINTEGRITYSHA256) }));
+        assert(sel(attrs, k1, TY_MESSAGEINTEGRITY) is Some);
+        assert(sel(attrs, k1, TY_MESSAGEINTEGRITYSHA256) is Some);
+        lemma_sel_mono(attrs, vx_it0.iter.pos as int, n, TY_MESSAGEINTEGRITY);
+        lemma_sel_mono(attrs, vx_it0.iter.pos as int, n, TY_MESSAGEINTEGRITYSHA256);
+    }
+//@before "break; }"
+    proof {
+        lemma_sel_skip(attrs, p0, n, TY_MESSAGEINTEGRITY);
+        lemma_sel_skip(attrs, p0, n, TY_MESSAGEINTEGRITYSHA256);
+    }
+//@spec
+    ensures
+        final(self).user_name == old(self).user_name, final(self).key == old(self).key,
+        final(self).validator.is_reliable == old(self).validator.is_reliable,
+        // a response carrying both integrity attributes is rejected outright
+        st_both(msg) ==> r == Err::<(), IntegrityError>(IntegrityError::Discarded) && *final(self) == *old(self),
+        !st_both(msg) ==> {
+            let c = st_chosen(old(self).integrity, msg.attrs());
+            // accepted exactly when the attribute of the agreed (or, if none is agreed yet, the offered) algorithm verifies
+            &&& (r is Ok <==> c is Some && mac_ok(msg.attrs()[c->Some_0], old(self).key, raw_buffer@))
+            &&& (r is Ok ==> final(self).violated() == (if msg.sclass() is Indication { old(self).violated() }
+                    else { old(self).violated().remove(msg.sid()) })
+                && final(self).integrity == (if old(self).integrity is Some { old(self).integrity }
+                    else if msg.sclass() is Indication { None } else { Some(kind_integrity(msg.attrs()[c->Some_0])) }))
+            &&& (r is Err ==> r->Err_0 == old(self).validator.discard_outcome(msg).0
+                && final(self).violated() == old(self).validator.discard_outcome(msg).1
+                && final(self).integrity == old(self).integrity)
+        },
+//@end
+//@item stun_agent :: mod st_cred_mech > impl ShortTermCredentialClient > fn recv_message
+//@tags C07 C17
+//@spec
+    ensures
+        final(self).user_name == old(self).user_name, final(self).key == old(self).key,
+        final(self).validator.is_reliable == old(self).validator.is_reliable,
+        // requests are never accepted
+        msg.sclass() is Request ==> r == Err::<(), IntegrityError>(IntegrityError::Discarded) && *final(self) == *old(self),
+        (!(msg.sclass() is Request) && st_both(msg)) ==> r == Err::<(), IntegrityError>(IntegrityError::Discarded) && *final(self) == *old(self),
+        (!(msg.sclass() is Request) && !st_both(msg)) ==> {
+            let c = st_chosen(old(self).integrity, msg.attrs());
+            &&& (r is Ok <==> c is Some && mac_ok(msg.attrs()[c->Some_0], old(self).key, raw_buffer@))
+            &&& (r is Ok ==> final(self).violated() == (if msg.sclass() is Indication { old(self).violated() }
+                    else { old(self).violated().remove(msg.sid()) })
+                && final(self).integrity == (if old(self).integrity is Some { old(self).integrity }
+                    else if msg.sclass() is Indication { None } else { Some(kind_integrity(msg.attrs()[c->Some_0])) }))
+            &&& (r is Err ==> r->Err_0 == old(self).validator.discard_outcome(msg).0
+                && final(self).violated() == old(self).validator.discard_outcome(msg).1
+                && final(self).integrity == old(self).integrity)
+        },
+//@end
+//@item stun_agent :: mod st_cred_mech > impl ShortTermCredentialClient > fn prepare_request_or_indication
+//@tags C07 C13
+//@sub "remove_auth_and_integrity_attrs(attributes);" => "st_remove_auth_and_integrity_attrs(attributes);"
+//@spec
+    requires old(attributes).wf(),
+    ensures final(attributes).wf(), st_prepared(*self, *old(attributes), *final(attributes)),
+//@end
+//@item stun_agent :: mod st_cred_mech > impl ShortTermCredentialClient > fn add_attributes
+//@tags C07 C13
+//@spec
+    requires old(attributes).wf(),
+    ensures final(attributes).wf(), st_prepared(*self, *old(attributes), *final(attributes)),
+//@end
+//@item stun_agent :: mod st_cred_mech > impl ShortTermCredentialClient > fn signal_protection_violated_on_timeout
+//@tags C07 C17
+//@spec
+    ensures final(self).user_name == old(self).user_name, final(self).key == old(self).key, final(self).integrity == old(self).integrity,
+        final(self).validator.is_reliable == old(self).validator.is_reliable,
+        r == old(self).violated().contains(*transaction_id),
+        final(self).violated() == old(self).violated().remove(*transaction_id),
+//@end
+}
+
+// ordinary attributes of `s` without the one of type t (order of the others kept)
+pub open spec fn without_ty(s: StunAttributes, t: u16) -> Seq<StunAttribute> {
+    match s.index_of(t) { Some(i) => s.attributes@.remove(i), None => s.attributes@ }
+}
+pub open spec fn is_mi_with(o: Option<StunAttribute>, key: HMACKey) -> bool {
+    o is Some && o->Some_0 is MessageIntegrity && o->Some_0->MessageIntegrity_0.key() == key
+}
+pub open spec fn is_sha_with(o: Option<StunAttribute>, key: HMACKey) -> bool {
+    o is Some && o->Some_0 is MessageIntegritySha256 && o->Some_0->MessageIntegritySha256_0.key() == key
+}
+// C07/C13: what the short-term mechanism makes of the application's attribute set: any USERNAME / integrity supplied
+// by the application is replaced (not duplicated); USERNAME(user) is appended after the other attributes in their
+// original order; the integrity attribute(s) carry the configured key; FINGERPRINT slot untouched
+pub open spec fn st_prepared(c: ShortTermCredentialClient, s0: StunAttributes, s1: StunAttributes) -> bool {
+    &&& s1.attributes@ == without_ty(s0, TY_USERNAME).push(StunAttribute::UserName(c.user_name))
+    &&& s1.fingerprint == s0.fingerprint
+    &&& match c.integrity {
+        Some(Integrity::MessageIntegrity) => is_mi_with(s1.integrity, c.key) && s1.integrity_sha256 is None,
+        Some(Integrity::MessageIntegritySha256) => is_sha_with(s1.integrity_sha256, c.key) && s1.integrity is None,
+        None => is_mi_with(s1.integrity, c.key) && is_sha_with(s1.integrity_sha256, c.key),
+    }
+}
+// (flat namespace) st_cred_mech.rs and lt_cred_mech.rs each have a private fn of this name: prefixed st_ / lt_
+//@item stun_agent :: mod st_cred_mech > fn remove_auth_and_integrity_attrs
+//@tags C07 C13
+//@sub "fn remove_auth_and_integrity_attrs" => "fn st_remove_auth_and_integrity_attrs"
+//@spec
+    requires old(attributes).wf(),
+    ensures final(attributes).wf(),
+        final(attributes).attributes@ == without_ty(*old(attributes), TY_USERNAME),
+        final(attributes).integrity is None, final(attributes).integrity_sha256 is None,
+        final(attributes).fingerprint == old(attributes).fingerprint,
+//@end
 proof fn vx_sentinel() ensures false {}
 } // verus!
 fn main() {}
